@@ -220,9 +220,9 @@ func init() {
 	p := &mon.Property{
 		ID: "C17",
 		Rule: "v1 (package lib) cases are (a, b, metadata) over {none, SET, MULTISET, SET+Setkeys(id), MERGE (null-free), SET+MERGE, MULTISET+MERGE, SetPrecision(0.1)}: random structured pairs with arrays growing, shrinking and changing in place, equal-under-reading pairs, keyed member pairs, " +
-			"every array pair over {1,2,3} up to length 4 at three positions; verdict: diff empty <=> lib Equals <=> independent oracle; Patch of the in-memory diff and of the rendered+re-read diff gives b (lib Equals and reference canon); plus the -v2=false binary pipeline; " +
+			"every array pair over {1,2,3} up to length 4 at three positions; verdict: diff empty <=> lib Equals <=> independent oracle; Patch of the in-memory diff (on a fresh parse of a and on the very operand the diff was computed from) and of the rendered+re-read diff gives b (lib Equals and reference canon); plus the -v2=false binary pipeline; " +
 			"non-trivial = non-empty diff; distinct = distinct (a, b, metadata)",
-		Floors: map[string]int{"round_trips_ok": 50000, "diff_empty": 5000, "hunks>=2": 10000, "root_array_grows": 3000, "root_array_shrinks": 3000, "root_array_same_length": 3000, "cli_v1_pipelines": 200, "b_is_patch_result": 3000},
+		Floors: map[string]int{"round_trips_ok": 50000, "diff_empty": 5000, "hunks>=2": 10000, "root_array_grows": 3000, "root_array_shrinks": 3000, "root_array_same_length": 3000, "cli_v1_pipelines": 200, "b_is_patch_result": 3000, "applied_to_the_operand_itself": 5000},
 		Assumptions: []string{
 			"v1 needs SET next to Setkeys for keyed sets (dispatch looks at SET / MULTISET only)",
 			"MERGE inputs are null-free; Setkeys inputs satisfy the key precondition with scalar key values",
@@ -314,7 +314,9 @@ func init() {
 		Name: "very-long-lines",
 		N:    qt(40, 800),
 		Run: func(c *mon.Ctx, i int) {
-			long := func() string { return strings.Repeat(gen.Pick(c.R, []string{"x", "ab", "long line "}), c.R.Range(70000, 150000)/2) }
+			long := func() string {
+				return strings.Repeat(gen.Pick(c.R, []string{"x", "ab", "long line "}), c.R.Range(70000, 150000)/2)
+			}
 			a := map[string]any{"a": 1.0, "b": "short", "c": []any{1.0, 2.0}, "z": true}
 			b := map[string]any{"a": 2.0, "b": long(), "c": []any{1.0, long(), 3.0}, "zz": false}
 			if i%2 == 1 {
